@@ -10,8 +10,7 @@ Ties, all evaluated inside Coq on literals generated here (coq/Gen/Cases_C04_*.v
     ttp:frameRate / frameRateMultiplier / tickRate.
 A second stream corrupts single attributes: the reader's result must equal the result for the document with the
 attribute removed, and a log record must be emitted (implementation against itself; judged here).
-Non-ASCII decimal digits (accepted by Python's \\d) are outside the model; the generator writes ASCII digits and
-the corrupt stream reports acceptance of other digits under the finding lax-value-syntax."""
+The reader's patterns are compiled with re.ASCII: decimal digits outside ASCII are not digits for the code, as for the model."""
 import copy, os, re, sys, time
 from fractions import Fraction as F
 import xml.etree.ElementTree as et
@@ -20,8 +19,8 @@ import gen_tables
 import imsc_common as IC
 
 PROP = "C04"
-TARGETS = ["Model/ImscCases.vo", "Proofs/C04/TimeSyntax.vo", "Proofs/C04/TimeReject.vo", "Proofs/C04/Interval.vo", "Proofs/C04/Total.vo", "Proofs/C04/TotalSeq.vo", "Proofs/C04/Params.vo", "Proofs/C04/Tables.vo", "Proofs/C04/BadAttr.vo", "Proofs/C04/Styles.vo"]
-HEADER = ("From TT Require Import Base.Prelude Base.ImscXml Model.ImscTime Model.ImscStyles Model.ImscTiming Model.ImscWrite Model.ImscWriteCases Spec.TtmlTimingSpec Model.ImscCases Proofs.C04.TimeReject.\n"
+TARGETS = ["Model/ImscCases.vo", "Model/ImscParams.vo", "Proofs/C04/TimeSyntax.vo", "Proofs/C04/TimeReject.vo", "Proofs/C04/Interval.vo", "Proofs/C04/Total.vo", "Proofs/C04/Params.vo", "Proofs/C04/Tables.vo", "Proofs/C04/BadAttr.vo", "Proofs/C04/Styles.vo", "Proofs/C04/Flatten.vo"]
+HEADER = ("From TT Require Import Base.Prelude Base.ImscXml Model.ImscTime Model.ImscStyles Model.ImscTiming Model.ImscWrite Model.ImscWriteCases Spec.TtmlTimingSpec Model.ImscCases Model.ImscParams Proofs.C04.TimeReject.\n"
           "From Coq Require Import QArith.\nLocal Open Scope Z_scope.\n")
 GRAMMAR = re.compile(r"(\d+(\.\d+)?(h|m|s|ms|f|t)|\d{2,}:\d\d:\d\d(\.\d+)?|\d{2,}:\d\d:\d\d:\d{2,})\Z", re.ASCII)
 
@@ -89,7 +88,7 @@ def doc_case(i, tt, table, ctx, rng):
     """run the code on one document; returns the Coq definitions and the bookkeeping record"""
     lit = IC.Lit(); sl = IC.StyleLit(lit, tt)
     doc, exc, logs = IC.read_tree(copy.deepcopy(tt))
-    rec = dict(i=i, exc=exc, nlogs=len(logs), obs=None)
+    rec = dict(i=i, exc=exc, nlogs=len(logs), obs=None, seq_break=any("never begin" in msg for _, msg in logs))
     xl = lit.xml(tt)
     if exc is not None:
         expected = f"(DErr {IC.EXC_CODES.get(exc, 9)})"
@@ -166,8 +165,6 @@ PALETTES = {
 }
 # style attributes whose every string is a legal value are not corrupted (a font family may be any name)
 STYLE_SKIP = {"fontFamily"}
-TT_PARAMS = {"cellResolution", "extent", "activeArea"}
-LAX_PARAMS = {"begin", "end", "dur", "frameRate", "frameRateMultiplier", "tickRate", "cellResolution", "extent", "aspectRatio", "displayAspectRatio", "activeArea"}
 
 
 def palette(e, k):
@@ -223,32 +220,9 @@ def all_paths(tt):
     return out
 
 
-def lax_time(s, has_fr=True):
-    """the narrow trigger of lax-value-syntax for time expressions: an unanchored frame offset, a trailing line feed
-    after a member of the grammar, or a decimal digit outside ASCII"""
-    if any(c.isdigit() and not ("0" <= c <= "9") for c in s): return True
-    if s.endswith("\n") and GRAMMAR.match(s[:-1]): return True
-    return bool(has_fr and re.match(r"[0-9]+(\.[0-9]+)?f", s))
-
-
-def lax_param(s):
-    """prefix matches of the parameter regexes: the value starts with a digit (or is a non-ASCII digit string)"""
-    return bool(re.match(r"\d", s))
-
-
 def classify_corrupt(name, on_tt, exc, same, logged, value=""):
-    """finding id covering a failure of the ignored-and-logged clause, or None"""
-    local = name.split("}")[-1]
-    if exc == "ZeroDivisionError" and local in ("frameRate", "frameRateMultiplier", "tickRate"): return "zero-rate-division"
-    if exc in ("ValueError", "IndexError") and on_tt and local in TT_PARAMS: return "tt-parameter-abort"
-    if name == IC.q(IC.NS_TTS, "ruby"): return "bad-ruby-drops-span"      # also when the dropped span breaks its ruby container (logged error, or TypeError in a seq parent)
-    if exc is not None: return None
-    if local in ("begin", "end", "dur"): return "lax-value-syntax" if lax_time(value) else None
-    if local in LAX_PARAMS and on_tt: return "lax-value-syntax" if lax_param(value) else None
-    if name == IC.q(IC.NS_TTS, "ruby"): return "bad-ruby-drops-span"
-    if name.startswith("{") and name[1:].split("}")[0] in STYLE_NS:
-        # parsers without a rejection path: anything is false / all-None; an empty tts:position is "center center"
-        return "lax-style-syntax" if local in ("fillLineGap", "textDecoration") or (local == "position" and value.strip() == "") else None
+    """finding id covering a failure of the ignored-and-logged clause, or None: every finding about attributes the reader knows is
+    repaired (lax-value-syntax, zero-rate-division, tt-parameter-abort, bad-ruby-drops-span, lax-style-syntax), so nothing is excused"""
     return None
 
 
@@ -289,27 +263,18 @@ def main():
     run.log(f"{len(docs)} documents read by the code in {time.time() - t0:.1f}s")
     lines = lambda idx: [
         "Eval vm_compute in check_all [" + ";".join(f"case_model x{i} q{i} e{i}" for i in idx) + "].",
-        "Eval vm_compute in check_all [" + ";".join(f"case_spec x{i} t{i} o{i}" for i in idx) + "].",
-        "Eval vm_compute in check_all [" + ";".join(f"negb (case_trig_seq x{i} t{i})" for i in idx) + "].",
-        "Eval vm_compute in check_all [" + ";".join(f"negb (case_trig_tick x{i} t{i})" for i in idx) + "]."]
+        "Eval vm_compute in check_all [" + ";".join(f"case_spec x{i} t{i} o{i}" for i in idx) + "]."]
     files = write_shards("Cases_C04_doc_", defs, lines)
-    (m_bad, s_bad, trig_seq, trig_tick), broken = run_shards(files, 4)
-    trig_seq, trig_tick = set(trig_seq), set(trig_tick)
+    (m_bad, s_bad), broken = run_shards(files, 2)
     n_obs = sum(len(r["obs"]) for r in recs)
     exc_docs = [r["i"] for r in recs if r["exc"] is not None]
-    run.log(f"documents: M/code mismatches {len(m_bad)}, S failures {len(s_bad)}, seq triggers {len(trig_seq)}, tick triggers {len(trig_tick)}, "
-            f"reader exceptions {len(exc_docs)}, snapshots {n_obs}, broken files {len(broken)}")
+    shapes = {k: sum(1 for d in docs if k in d[3]) for k in ("tick-default", "seq-region", "bad-ruby")}
+    shapes["seq-child-after-indefinite-sibling"] = sum(1 for r in recs if r["seq_break"])
+    run.log(f"documents: M/code mismatches {len(m_bad)}, S failures {len(s_bad)}, reader exceptions {len(exc_docs)}, snapshots {n_obs}, broken files {len(broken)}; "
+            f"formerly failing shapes reached: {shapes}")
 
-    unlisted = []; known_hits = {}
-    for i in sorted(set(s_bad) | set(exc_docs)):
-        r = recs[i]
-        if r["exc"] == "TypeError" and i in trig_seq: known_hits.setdefault("seq-indefinite-sibling", []).append(i)
-        elif r["exc"] is None and i in trig_tick and i in s_bad: known_hits.setdefault("tickrate-default", []).append(i)
-        elif r["exc"] is None and i not in s_bad: pass
-        else: unlisted.append(i)
-    for fid, idx in known_hits.items():
-        if not run.known(fid, f"{len(idx)} generated documents, e.g. #{idx[0]}"):
-            unlisted += idx
+    # no recorded finding covers the documents any more: every S failure and every exception of the reader is a violation
+    unlisted = sorted(set(s_bad) | set(exc_docs))
     isd_exc = [r for r in recs if r.get("isd_exc")]
     for i in unlisted[:3]:
         tt, table, ctx, flags, origin = docs[i]
@@ -383,21 +348,18 @@ def main():
             ini = kv([(pnames.index(p.__name__), vid(p, v)) for p, v in doc.iter_initial_values()])
             sline = f"case_styles y{i} [{';'.join(wrows)}] [{';'.join(vrows)}] {per} {ini}"
         sdefs.append((i, f"Definition y{i} : xml := {lit.xml(stt)}.\nDefinition m{i} := case_model y{i} {sl.table()} {expected}.\nDefinition s{i} := {sline}.\n"))
-        sinfo.append(dict(doc=stt, exc=exc, flags=g.flags, mirrored=obs is not None or exc is not None))
+        sinfo.append(dict(doc=stt, exc=exc, flags=g.flags, mirrored=obs is not None or exc is not None, depth=g.graph_depth, forward=g.forward_refs))
     slines = lambda idx: ["Eval vm_compute in check_all [" + ";".join(f"m{i}" for i in idx) + "].",
                           "Eval vm_compute in check_all [" + ";".join(f"s{i}" for i in idx) + "]."]
     sfiles = write_shards("Cases_C04_sty_", sdefs, slines)
     (sm_bad, ss_bad), sbroken = run_shards(sfiles, 2)
-    s_unlisted = []; s_hits = {}
-    for i in ss_bad:
-        inf = sinfo[i]
-        if inf["exc"] == "ValueError" and "style-invalid-value" in inf["flags"]: s_hits.setdefault("style-invalid-value-abort", []).append(i)
-        elif inf["exc"] is None and "textshadow-comma-space" in inf["flags"]: s_hits.setdefault("textshadow-comma-space", []).append(i)
-        else: s_unlisted.append(i)
-    for fid, idx in s_hits.items():
-        if not run.known(fid, f"{len(idx)} style documents, e.g. #{idx[0]}"): s_unlisted += idx
-    run.log(f"style documents: {nsty}, M/code mismatches {len(sm_bad)}, S failures {len(ss_bad)} ({ {k: len(v) for k, v in s_hits.items()} }), unlisted {len(s_unlisted)}, "
-            f"reader exceptions {sum(1 for x in sinfo if x['exc'])}, reference loops (model only) {sum(1 for x in sinfo if 'style-loop' in x['flags'])}")
+    s_unlisted = list(ss_bad)
+    sshape = dict(depth_histogram={str(k): sum(1 for x in sinfo if x["depth"] == k) for k in sorted({x["depth"] for x in sinfo})},
+                  documents_with_forward_references=sum(1 for x in sinfo if x["forward"]),
+                  invalid_value_in_style=sum(1 for x in sinfo if "style-invalid-value" in x["flags"]),
+                  shadow_comma_space=sum(1 for x in sinfo if "textshadow-comma-space" in x["flags"]))
+    run.log(f"style documents: {nsty}, M/code mismatches {len(sm_bad)}, S failures {len(ss_bad)}, "
+            f"reader exceptions {sum(1 for x in sinfo if x['exc'])}, reference loops (model only) {sum(1 for x in sinfo if 'style-loop' in x['flags'])}; graphs: {sshape}")
     for i in s_unlisted[:3]:
         run.violation(f"style document {i}: " + (f"the reader raises {sinfo[i]['exc']}" if sinfo[i]["exc"] else "the specified styles differ from TTML2 style association"),
                       dict(kind="S-on-code", document=xml_text(sinfo[i]["doc"]), reader_exception=sinfo[i]["exc"], flags=sorted(sinfo[i]["flags"]),
@@ -409,7 +371,7 @@ def main():
     ntime = 40000 if thorough else 4000
     tdefs = []; tinfo = []
     rates = [None, F(24), F(25), F(30), F(30000, 1001), F(24000, 1001), F(60), F(0)]
-    ticks = [None, 1, 10, 1000, 90000, 10000000, 0]
+    ticks = [None, 1, 10, 1000, 90000, 10000000, 0, F(30000, 1001), F(25)]
     for i in range(ntime):
         fr = rng.choice(rates); tr = rng.choice(ticks)
         a = IC.random_ast(rng); s = IC.ast_print(a); mutated = False
@@ -417,7 +379,7 @@ def main():
             mutated = True
             k = rng.random()
             if k < 0.4 and s:
-                j = rng.randrange(len(s)); s = s[:j] + rng.choice("0123456789:.hmsft x\n-+e") + s[j + (rng.random() < 0.5):]
+                j = rng.randrange(len(s)); s = s[:j] + rng.choice("0123456789:.hmsft x\n-+e\u0663\uff15") + s[j + (rng.random() < 0.5):]
             elif k < 0.6: s = s + rng.choice(["x", "\n", " ", "s", "0", ".", "f5", "\n\n"])
             elif k < 0.75: s = s[:rng.randrange(len(s) + 1)]
             elif k < 0.9: s = rng.choice(["", " ", "1", "1.", ".5s", "1:2:3", "01:02:03:4", "1:02:03", "00:00:00.", "5ss", "5 s", "+5s", "1e3s"])
@@ -429,30 +391,25 @@ def main():
         except ZeroDivisionError:
             got = "TZeroDiv"; gk = "zero"
         ing = bool(GRAMMAR.match(s))
-        lit_fr = C.opt(fr, C.q); lit_tr = C.opt(tr, C.z)
+        lit_fr = C.opt(fr, C.q); lit_tr = C.opt(None if tr is None else F(tr), C.q)
         d = f"Definition m{i} := case_time {lit_tr} {lit_fr} {C.text(s)} {got}.\n"
         # S: strings printed from the grammar (unmutated) under defined, non-zero rates
         if not mutated and fr not in (None, F(0)) and tr not in (None, 0):
-            d += f"Definition s{i} := case_time_spec {C.z(tr)} {C.q(fr)} {IC.ast_lit(a)} {got}.\n"
+            d += f"Definition s{i} := case_time_spec {C.q(F(tr))} {C.q(fr)} {IC.ast_lit(a)} {got}.\n"
         else:
             # outside the grammar the value must be rejected; inside it (a mutation may land in the grammar) no claim here
             okk = (gk == "bad") if not ing else True
             if gk == "zero": okk = True          # zero rates are judged by the parameter cases
             d += f"Definition s{i} := {C.boolean(okk)}.\n"
-        d += f"Definition l{i} := negb (lax_trigger {C.text(s)}).\n"
         tdefs.append((i, d)); tinfo.append((s, fr, tr, gk, ing, mutated))
     tl = lambda idx: ["Eval vm_compute in check_all [" + ";".join(f"m{i}" for i in idx) + "].",
                       "Eval vm_compute in check_all [" + ";".join(f"s{i}" for i in idx) + "]."]
-    tl3 = lambda idx: tl(idx) + ["Eval vm_compute in check_all [" + ";".join(f"l{i}" for i in idx) + "]."]
-    tfiles = write_shards("Cases_C04_time_", tdefs, tl3)
-    (tm_bad, ts_bad, t_trig), tbroken = run_shards(tfiles, 3)
-    t_trig = set(t_trig)      # strings on which the Coq trigger of lax-value-syntax (Proofs/C04/TimeReject.v lax_trigger) fires
-    lax = [i for i in ts_bad if tinfo[i][3] == "val" and not tinfo[i][4] and i in t_trig]
-    other_ts = [i for i in ts_bad if i not in lax]
-    run.log(f"time expressions: {ntime} strings, M/code mismatches {len(tm_bad)}, accepted outside the grammar {len(lax)}, other S failures {len(other_ts)}")
-    if lax:
-        if not run.known("lax-value-syntax", f"{len(lax)} strings outside the TTML grammar accepted, e.g. {tinfo[lax[0]][0]!r}"):
-            other_ts += lax
+    tfiles = write_shards("Cases_C04_time_", tdefs, tl)
+    (tm_bad, ts_bad), tbroken = run_shards(tfiles, 2)
+    other_ts = list(ts_bad)       # a string outside the TTML grammar that is accepted is a violation (the finding lax-value-syntax is repaired)
+    outside = sum(1 for x in tinfo if not x[4])
+    run.log(f"time expressions: {ntime} strings ({outside} outside the grammar, {sum(1 for x in tinfo if x[0].endswith(chr(10)))} ending with a line feed, "
+            f"{sum(1 for x in tinfo if any(c.isdigit() and not c.isascii() for c in x[0]))} with digits outside ASCII), M/code mismatches {len(tm_bad)}, S failures {len(other_ts)}")
     for i in other_ts[:2]:
         s, fr, tr, gk, ing, mut = tinfo[i]
         run.violation(f"time expression {s!r} (frame rate {fr}, tick rate {tr}) is read as {gk}, the TTML2 grammar says otherwise",
@@ -469,42 +426,61 @@ def main():
         if rng.random() < 0.6: e.set(at.FrameRateAttribute.frame_rate_qn, val(["24", "25", "30", "50", "60", "1", "120"], ["", "x", "25x", "2 5", "-25", "25.5", "0"]))
         if rng.random() < 0.45: e.set(at.FrameRateAttribute.frame_rate_multiplier_qn, val(["1000 1001", "1 1", "999 1000", "2 1"], ["", "1000", "1000/1001", "1000  1001", "1000 1001 7", "1 0", "0 1", "a b"]))
         if rng.random() < 0.5: e.set(at.TickRateAttribute.qn, val(["1", "10", "1000", "90000", "10000000"], ["", "x", "10x", "0", "-1", "1.5"]))
-        try:
-            fr = at.FrameRateAttribute.extract(e); exc = None
-        except ZeroDivisionError:
-            fr = None; exc = "ZeroDivisionError"
-        tr = at.TickRateAttribute.extract(e)
+        fr = at.FrameRateAttribute.extract(e); tr = F(at.TickRateAttribute.extract(e)); exc = None
         attrs = "[" + ";".join(f"({lit.qn(k)},{C.text(v)})" for k, v in e.attrib.items()) + "]"
-        wellformed = all(re.fullmatch(r"[0-9]+", v) and int(v) > 0 for k, v in e.attrib.items() if not k.endswith("Multiplier")) and \
-            all(re.fullmatch(r"[0-9]+ [0-9]+", v) and all(int(x) > 0 for x in v.split()) for k, v in e.attrib.items() if k.endswith("Multiplier"))
-        d = (f"Definition m{i} := case_params {attrs} {C.opt(fr, C.q)} {C.z(tr)}.\n"
-             f"Definition s{i} := case_params_spec {attrs} {C.opt(fr, C.q)} {C.z(tr)}.\n")
-        pdefs.append((i, d)); pinfo.append((dict(e.attrib), fr, tr, exc, wellformed))
+        d = (f"Definition m{i} := case_params {attrs} {C.q(fr)} {C.q(tr)}.\n"
+             f"Definition s{i} := case_params_spec {attrs} {C.q(fr)} {C.q(tr)}.\n")
+        pdefs.append((i, d)); pinfo.append((dict(e.attrib), fr, tr, exc))
     pfiles = write_shards("Cases_C04_par_", pdefs, tl)
     (pm_bad, ps_bad), pbroken = run_shards(pfiles, 2)
-    p_unlisted = []
-    hits = {}
-    for i in ps_bad:
-        attrs, fr, tr, exc, wf = pinfo[i]
-        okint = lambda v: v is not None and re.fullmatch(r"[0-9]+", v) is not None and int(v) > 0
-        has_tr = okint(attrs.get(at.TickRateAttribute.qn)); has_fr = okint(attrs.get(at.FrameRateAttribute.frame_rate_qn))
-        if exc: hits.setdefault("zero-rate-division", []).append(i)
-        elif not has_tr and has_fr and not any(lax_param(v) and not okint(v) for k, v in attrs.items() if not k.endswith("Multiplier")) \
-                and (at.FrameRateAttribute.frame_rate_multiplier_qn not in attrs or re.fullmatch(r"[1-9][0-9]* [1-9][0-9]*", attrs[at.FrameRateAttribute.frame_rate_multiplier_qn]) or not lax_param(attrs[at.FrameRateAttribute.frame_rate_multiplier_qn])):
-            hits.setdefault("tickrate-default", []).append(i)
-        elif not wf and any(lax_param(v) and not (re.fullmatch(r"[0-9]+", v) and int(v) > 0) for v in attrs.values()): hits.setdefault("lax-value-syntax", []).append(i)
-        elif not has_tr and has_fr: hits.setdefault("tickrate-default", []).append(i)
-        else: p_unlisted.append(i)
-    for fid, idx in hits.items():
-        if not run.known(fid, f"{len(idx)} parameter sets, e.g. {pinfo[idx[0]][0]}"): p_unlisted += idx
-    run.log(f"parameters: {npar} attribute sets, M/code mismatches {len(pm_bad)}, S failures {len(ps_bad)} ({ {k: len(v) for k, v in hits.items()} }), unlisted {len(p_unlisted)}")
+    p_unlisted = list(ps_bad)     # the parameter findings (zero-rate-division, tickrate-default, lax-value-syntax) are repaired: nothing is excused
+    pshape = dict(zero=sum(1 for x in pinfo if any(v in ("0", "1 0", "0 1") for v in x[0].values())),
+                  prefix=sum(1 for x in pinfo if any(re.match(r"[0-9]+[^0-9 ]", v) for v in x[0].values())),
+                  tick_from_frame_rate=sum(1 for x in pinfo if at.TickRateAttribute.qn not in x[0] and at.FrameRateAttribute.frame_rate_qn in x[0]))
+    run.log(f"parameters: {npar} attribute sets, M/code mismatches {len(pm_bad)}, S failures {len(ps_bad)}; formerly failing shapes reached: {pshape}")
     for i in p_unlisted[:2]:
         run.violation(f"document parameters {pinfo[i][0]} are read as frame rate {pinfo[i][1]}, tick rate {pinfo[i][2]}",
-                      dict(kind="S-on-code", attributes=pinfo[i][0], frame_rate=str(pinfo[i][1]), tick_rate=pinfo[i][2], spec="Spec/TtmlTimingSpec.v spec_frame_rate / spec_tick_rate"))
+                      dict(kind="S-on-code", attributes=pinfo[i][0], frame_rate=str(pinfo[i][1]), tick_rate=str(pinfo[i][2]), spec="Spec/TtmlTimingSpec.v spec_frame_rate / spec_tick_rate"))
+
+    # ---------------------------------------------------------------- document parameters on tt: cell resolution, pixel extent, active area, aspect ratios
+    nttp = 6000 if thorough else 800
+    qdefs = []; qinfo = []
+    CELL = (["40 20", "32 15", "80 24", "1 1", "007 08"], ["", "40", "40x20", "a b", "0 0", "40 0", "40 20 x", "-1 2", "40  20", "40 20\n", " 40 20", "\u0664\u0660 20"])
+    EXT = (["640px 480px", "1920px 1080px", "1px 1px", "640.0px 480px", "+640px 480px"], ["100px", "", "a b", "100 100", "100% 100%", "1.5px 2px", "0px 0px", "100px 100px 1px", "-640px 480px", "640px  480px", "640em 480px", "640px 480px\n", "1e3px 1px"])
+    AA = (["10% 10% 80% 80%", "0% 0% 100% 100%", "12.5% 5% 75% 90%", "0.5% .5% 99% 99%"], ["", "1% 2% 3%", "a b c d", "10px 10% 10% 10%", "200% 0% 10% 10%", "-1% 0% 10% 10%", "10% 10% 80% 80% 1%", "10%  10% 80% 80%", "10% 10% 80% 100.5%"])
+    AR = (["16 9", "4 3", "1 1", "185 100"], ["", "16", "16:9", "16 0", "a b", "0 9", "16 9 1", "16  9", "16 9\n", "0 0"])
+    for i in range(nttp):
+        e = et.Element(IC.q(IC.NS_TT, "tt")); e.set(IC.q(IC.NS_XML, "lang"), "en")
+        def val(pool):
+            return rng.choice(pool[0]) if rng.random() < 0.6 else rng.choice(pool[1])
+        if rng.random() < 0.6: e.set(at.CellResolutionAttribute.qn, val(CELL))
+        if rng.random() < 0.6: e.set(at.ExtentAttribute.qn, val(EXT))
+        if rng.random() < 0.6: e.set(at.ActiveAreaAttribute.qn, val(AA))
+        if rng.random() < 0.4: e.set(at.AspectRatioAttribute.qn, val(AR))
+        if rng.random() < 0.4: e.set(at.DisplayAspectRatioAttribute.qn, val(AR))
+        et.SubElement(e, IC.q(IC.NS_TT, "body"))
+        doc, exc, logs = IC.read_tree(copy.deepcopy(e))
+        attrs = "[" + ";".join(f"({lit.qn(k)},{C.text(v)})" for k, v in e.attrib.items()) + "]"
+        if exc is not None or doc is None:
+            qdefs.append((i, f"Definition m{i} := false.\n")); qinfo.append((dict(e.attrib), exc)); continue
+        cr = doc.get_cell_resolution(); px = at.ExtentAttribute.extract(e); aa = doc.get_active_area(); dar = doc.get_display_aspect_ratio()
+        if (px is None) != (doc.get_px_resolution() == type(doc.get_px_resolution())(1920, 1080)) and not (px is not None and (px.width, px.height) == (1920, 1080)):
+            qdefs.append((i, f"Definition m{i} := false.\n")); qinfo.append((dict(e.attrib), "tts:extent on tt is not what the document got")); continue
+        pair = lambda a, b: f"({C.z(a)},{C.z(b)})"
+        d = (f"Definition m{i} := case_tt_params {attrs} {pair(cr.columns, cr.rows)} {C.opt(px, lambda p_: pair(p_.width, p_.height))} "
+             + C.opt(aa, lambda a: "(" + ",".join(C.q(F(x)) for x in (a.left_offset, a.top_offset, a.width, a.height)) + ")") + " " + C.opt(dar, lambda x: C.q(F(x))) + ".\n")
+        qdefs.append((i, d)); qinfo.append((dict(e.attrib), None))
+    qfiles = write_shards("Cases_C04_ttp_", qdefs, lambda idx: ["Eval vm_compute in check_all [" + ";".join(f"m{i}" for i in idx) + "]."])
+    (qm_bad,), qbroken = run_shards(qfiles, 1)
+    q_exc = [i for i in range(nttp) if qinfo[i][1] is not None]
+    run.log(f"tt parameters: {nttp} attribute sets (cell resolution, pixel extent, active area, aspect ratios; {sum(1 for x in qinfo if any(v in CELL[1] + EXT[1] + AA[1] + AR[1] for v in x[0].values()))} with a malformed value), "
+            f"M/code mismatches {len(qm_bad)}, reader exceptions {len(q_exc)}")
+    for i in q_exc[:2]:
+        run.violation(f"document parameters {qinfo[i][0]} on tt: the reader raises {qinfo[i][1]}", dict(kind="S-on-code", attributes=qinfo[i][0], reader_exception=str(qinfo[i][1])))
 
     # ---------------------------------------------------------------- corrupt stream
     ncor = 6000 if thorough else 500
-    cor_fail = {}; cor_unlisted = []; ncor_done = 0; cor_classes = {}
+    cor_fail = {}; cor_unlisted = []; ncor_done = 0; cor_classes = {}; cor_unreached = 0
     pool = [d for d in docs if corruptible(d[0])] + [(x["doc"],) for x in sinfo if x["exc"] is None and corruptible(x["doc"])]
     for it in range(ncor):
         tt = rng.choice(pool)[0]
@@ -529,6 +505,13 @@ def main():
         same = ea is None and da is not None and dump_doc(da) == dump_doc(db)
         logged = len(la) > len(lb)
         if same and logged: continue
+        if same and not unknown and at_path(tt, path).tag != IC.q(IC.NS_TT, "tt"):
+            # is the element read at all?  (children of a sequential container after a child that never ends, descendants of an element
+            # the reader skips, ... are not: nothing is to be reported for them)  Probe: a malformed begin (end) on it must be reported.
+            pr = copy.deepcopy(b); at_path(pr, path).set("end" if name == "begin" else "begin", "!")
+            dp, ep, lp = IC.read_tree(pr)
+            if ep is None and len(lp) <= len(lb):
+                cor_unreached += 1; continue
         on_tt = at_path(tt, path).tag == IC.q(IC.NS_TT, "tt")
         if unknown: fid = "unknown-attribute-not-logged" if same else None
         else: fid = classify_corrupt(name, on_tt, ea, same, logged, bad)
@@ -538,7 +521,7 @@ def main():
     for fid, infos in sorted(cor_fail.items()):
         if not run.known(fid, f"{len(infos)} corrupted attributes, e.g. {infos[0]['attribute'].split('}')[-1]}={infos[0]['value']!r}"):
             cor_unlisted += infos
-    run.log(f"corrupt stream: {ncor_done} single-attribute corruptions, failures by finding { {k: len(v) for k, v in cor_fail.items()} }, unlisted {len(cor_unlisted)}")
+    run.log(f"corrupt stream: {ncor_done} single-attribute corruptions ({cor_unreached} on elements the reader does not reach), failures by finding { {k: len(v) for k, v in cor_fail.items()} }, unlisted {len(cor_unlisted)}")
     for info in cor_unlisted[:3]:
         run.violation(f"malformed {info['attribute'].split('}')[-1]}={info['value']!r} on {info['element'].split('}')[-1]}: "
                       + (f"the reader raises {info['exception']}" if info["exception"] else
@@ -551,15 +534,17 @@ def main():
     if rc != 0: run.cov["stale_findings"] = ["coq/Findings/C04.v no longer compiles: " + out[-300:]]
 
     # ---------------------------------------------------------------- broken ties
-    all_broken = broken + tbroken + pbroken + sbroken
-    n_mism = len(m_bad) + len(tm_bad) + len(pm_bad) + len(sm_bad)
-    s_fail_found = bool(unlisted or other_ts or p_unlisted or cor_unlisted or s_unlisted)
+    all_broken = broken + tbroken + pbroken + sbroken + qbroken
+    qm_only = [i for i in qm_bad if qinfo[i][1] is None]
+    n_mism = len(m_bad) + len(tm_bad) + len(pm_bad) + len(sm_bad) + len(qm_only)
+    s_fail_found = bool(unlisted or other_ts or p_unlisted or cor_unlisted or s_unlisted or q_exc)
     if (n_mism or all_broken or not proofs_ok) and not s_fail_found:
         what = []
         if not proofs_ok: what.append("theorems of coq/Properties/C04.v no longer check: " + getattr(run, "proof_log", "")[-600:])
         if m_bad: what.append(f"Model/ImscTiming.v read_tt disagrees with imsc.reader.to_model on {len(m_bad)} documents, first #{m_bad[0]}")
         if tm_bad: what.append(f"Model/ImscTime.v parse_time_x disagrees with parse_time_expression on {len(tm_bad)} strings, first {tinfo[tm_bad[0]][:3]}")
         if sm_bad: what.append(f"Model/ImscTiming.v / ImscStyles.v read_tt disagrees with the reader on {len(sm_bad)} style documents, first #{sm_bad[0]}: {xml_text(sinfo[sm_bad[0]]['doc'])[:800]}")
+        if qm_only: what.append(f"Model/ImscParams.v disagrees with the reader on {len(qm_only)} sets of tt parameters, first {qinfo[qm_only[0]][0]}")
         if pm_bad: what.append(f"Model/ImscTime.v extract_frame_rate/extract_tick_rate disagree on {len(pm_bad)} attribute sets, first {pinfo[pm_bad[0]][0]}")
         if all_broken: what.append(f"case files did not evaluate: {all_broken[0]}")
         run.violation("; ".join(what), dict(kind="broken-tie", theorem_file="coq/Properties/C04.v", proofs_ok=proofs_ok,
@@ -584,7 +569,7 @@ def main():
                    max_depth=max(depth(d[0]) for d in docs), seq_documents=sum(1 for d in docs if any(e.get("timeContainer") == "seq" for e in d[0].iter())),
                    reader_exceptions={k: sum(1 for r in recs if r["exc"] == k) for k in {r["exc"] for r in recs if r["exc"]}},
                    time_strings=ntime, time_outcomes={k: sum(1 for x in tinfo if x[3] == k) for k in ("val", "bad", "zero")},
-                   parameter_sets=npar, corruptions=ncor_done, corruptions_by_attribute=cor_classes, corrupt_failures={k: len(v) for k, v in cor_fail.items()},
+                   parameter_sets=npar, tt_parameter_sets=nttp, corruptions=ncor_done, corruptions_by_attribute=cor_classes, corrupt_failures={k: len(v) for k, v in cor_fail.items()},
                    model_code_mismatches=n_mism, s_failures_on_code=len(s_bad))
     run.assumptions += ["XML parsing (expat / ElementTree) is outside the model: M and S start from the ElementTree structure",
                         "time-attribute strings are valued by S through the table of abstract expressions they were printed from (Coq re-prints and compares each)",
